@@ -14,7 +14,7 @@ import (
 // when the operation reports failure.
 func vCheckOutcome(op string, w *vWorld, err error, preUsage int, preAmounts map[string]int, preApplied map[string]int) {
 	vObserve("fault_site", w.site)
-	vAssert("C10/usage-equals-sum-of-recorded-workloads", w.usage["a"] == vLedgerSum(w))
+	vAssert("C10,C11/usage-equals-sum-of-recorded-workloads", w.usage["a"] == vLedgerSum(w))
 	if err == nil {
 		return
 	}
@@ -92,7 +92,7 @@ func init() {
 // exactly as before (C11); usage equals the ledger sum in all cases (C10).
 func vCheckPerWorkload(op string, w *vWorld, done map[string]bool, preAm, preAp map[string]int, removesContainer bool) {
 	vObserve("fault_site", w.site)
-	vAssert("C10/usage-equals-sum-of-recorded-workloads", w.usage["a"] == vLedgerSum(w))
+	vAssert("C10,C11/usage-equals-sum-of-recorded-workloads", w.usage["a"] == vLedgerSum(w))
 	for id, a := range preAm {
 		wl, recorded := w.st.workloads[id]
 		_, hasContainer := w.applied[id]
